@@ -1130,7 +1130,8 @@ fn twin_c08() -> R {
 fn twin_c10_c11_c09() -> R {
     let mut n = 0u64;
     for req_v in [Version::HTTP_10, Version::HTTP_11] {
-        for req_close in [None, Some("close"), Some("keep-alive")] {
+        // ("several fields": a first Connection field that is not `close`, followed by one that is)
+        for req_close in [None, Some("close"), Some("keep-alive"), Some("keep-alive|close")] {
             for expect in [false, true] {
                 for handshake in 0..5 {
                     // 0: 100 continue, 1: refused 403 bare, 2: refused with headers, 3: give up waiting, 4: bare 102 (not a 100!)
@@ -1139,12 +1140,14 @@ fn twin_c10_c11_c09() -> R {
                     }
                     for resp_v in ["1.0", "1.1"] {
                         for framing in ["cl", "chunked", "close", "none304"] {
-                            for resp_close in [None, Some("close"), Some("keep-alive")] {
+                            for resp_close in [None, Some("close"), Some("keep-alive"), Some("keep-alive|close")] {
                                 for late_100 in [false, true] {
                                     n += 1;
                                     let mut b = Request::post("http://a.test/x").version(req_v);
                                     if let Some(c) = req_close {
-                                        b = b.header("connection", c);
+                                        for part in c.split('|') {
+                                            b = b.header("connection", part);
+                                        }
                                     }
                                     if expect {
                                         b = b.header("expect", "100-continue");
@@ -1223,7 +1226,9 @@ fn twin_c10_c11_c09() -> R {
                                             _ => {}
                                         }
                                         if let Some(c) = resp_close {
-                                            h.push_str(&format!("Connection: {}\r\n", c));
+                                            for part in c.split('|') {
+                                                h.push_str(&format!("Connection: {}\r\n", part));
+                                            }
                                         }
                                         h.push_str("\r\n");
                                         h
@@ -1276,7 +1281,8 @@ fn twin_c10_c11_c09() -> R {
                                         Some(RecvResponseResult::Cleanup(c)) => c,
                                         _ => return Err("[C09] unexpected state after response".into()),
                                     };
-                                    let want = req_v == Version::HTTP_10 || req_close == Some("close") || (!refused && resp_close == Some("close")) || refused || close_delim;
+                                    let says_close = |c: Option<&str>| c.map(|c| c.split('|').any(|p| p == "close")).unwrap_or(false);
+                                    let want = req_v == Version::HTTP_10 || says_close(req_close) || (!refused && says_close(resp_close)) || refused || close_delim;
                                     if cleanup.must_close_connection() != want || cleanup.close_reason().is_some() != want {
                                         tagged_fail!(
                                             "[C10] verdict {} want {} (req {:?} close {:?} expect {} handshake {} resp {} framing {} resp_close {:?}) reason {:?}",
@@ -1288,6 +1294,31 @@ fn twin_c10_c11_c09() -> R {
                         }
                     }
                 }
+            }
+        }
+    }
+    // readiness agrees with advancing at EVERY point of a sized body, including before the first write and for an empty body
+    for total in [0usize, 1, 3] {
+        for step in [0usize, 1, 2] {
+            n += 1;
+            let req = Request::post("http://a.test/x").header("content-length", total.to_string()).body(()).unwrap();
+            let mut sb = to_send_body(req)?;
+            let mut sent = 0usize;
+            let mut out = vec![0u8; 64];
+            for round in 0..8 {
+                if sb.can_proceed() {
+                    break;
+                }
+                let k = if round == 0 { step.min(total - sent) } else { total - sent };
+                sb.write(&vec![b'x'; k], &mut out).map_err(|e| format!("{:?}", e))?;
+                sent += k;
+            }
+            if !sb.can_proceed() {
+                tagged_fail!("[C09,C04] sized body of {} bytes never reported finished", total);
+            }
+            // a flow that says it can proceed must proceed (a panic here is reported by the harness as a library panic)
+            if sb.proceed().is_none() {
+                tagged_fail!("[C09] SendBody: can_proceed() but proceed() is None (content-length {}, first write {})", total, step);
             }
         }
     }
